@@ -1,28 +1,28 @@
 /-
-Helper lemmas for C16 (time-unit logic): decimal renderings (`Nat.toDigits 10`) through the modelled
-Go parsers, and the rounding argument for fractional seconds.  Core Lean only.
+Helper lemmas for C16 (time-unit logic): decimal renderings (`Nat.toDigits 10`, i.e. `toString`)
+through the modelled Go parsers (jsonparser.parseInt's wrap-checking loop, strconv.ParseUint /
+ParseInt, strconv.ParseFloat's syntax), and the binary64 rounding argument for `<s>.<fff>`.
+Core Lean only.
 -/
 import SigModel.Model.TimeUnit
 
 namespace SigModel.Lemmas.C16
-open SigModel.TimeUnit SigModel.MachInt
+open SigModel SigModel.TimeUnit SigModel.MachInt
 
-/-- decimal rendering of a natural number; `(toString n).toList = dec n` by `Nat.toList_repr` -/
+/-- decimal rendering of a natural number -/
 def dec (n : Nat) : List Char := Nat.toDigits 10 n
 
+/-- `dec n` is exactly the characters of `toString n` -/
 theorem dec_eq_toString (n : Nat) : dec n = (toString n).toList := by
   simp [dec]
 
 theorem isDig_digitChar {d : Nat} (h : d < 10) : isDig (Nat.digitChar d) = true := by
   match d, h with
   | 0, _ | 1, _ | 2, _ | 3, _ | 4, _ | 5, _ | 6, _ | 7, _ | 8, _ | 9, _ => decide
-
 theorem digVal_digitChar {d : Nat} (h : d < 10) : digVal (Nat.digitChar d) = (d : Int) := by
   match d, h with
   | 0, _ | 1, _ | 2, _ | 3, _ | 4, _ | 5, _ | 6, _ | 7, _ | 8, _ | 9, _ => decide
-
 theorem dec_lt (n : Nat) (h : n < 10) : dec n = [Nat.digitChar n] := Nat.toDigits_of_lt_base h
-
 theorem dec_ge (n : Nat) (h : 10 ≤ n) : dec n = dec (n / 10) ++ [Nat.digitChar (n % 10)] :=
   Nat.toDigits_of_base_le (by decide) h
 
@@ -43,27 +43,323 @@ theorem dec_head (n : Nat) : ∃ c r, dec n = c :: r ∧ isDig c = true := by
   | nil => exact absurd h (dec_ne_nil n)
   | cons c r => exact ⟨c, r, rfl, isDig_of_mem_dec (by rw [h]; exact List.mem_cons_self)⟩
 
-/-- the digit loop of jsonparser.parseInt reads back every rendering below 2^63 without tripping its
-overflow test -/
+theorem piStep_digit (v : Int) (d : Nat) (hd : d < 10) (hv : 0 ≤ v) (hb : 10 * v + d < 9223372036854775808) :
+    piStep (.run v) (Nat.digitChar d) = .run (10 * v + d) := by
+  have e : wrapS64 (10 * v + (d : Int)) = 10 * v + d := by unfold wrapS64; omega
+  have nl : ¬ (10 * v + (d : Int) < v) := by omega
+  simp only [piStep, isDig_digitChar hd, digVal_digitChar hd, if_true, e, nl, if_false]
+
 theorem foldl_piStep_dec (n : Nat) (h : n < 9223372036854775808) :
     (dec n).foldl piStep (.run 0) = .run (n : Int) := by
   induction n using Nat.strongRecOn with
   | _ n ih =>
     by_cases hn : n < 10
-    · rw [dec_lt n hn]
-      simp only [List.foldl_cons, List.foldl_nil, piStep, isDig_digitChar hn, digVal_digitChar hn, if_true]
-      have : wrapS64 (10 * 0 + (n : Int)) = (n : Int) := by unfold wrapS64; omega
-      rw [this]
-      have : ¬ ((n : Int) < 0) := by omega
-      simp [this]
+    · rw [dec_lt n hn, List.foldl_cons, List.foldl_nil, piStep_digit 0 n hn (by omega) (by omega)]
+      congr 1; omega
     · have hn' : 10 ≤ n := by omega
-      rw [dec_ge n hn', List.foldl_append, ih (n / 10) (by omega) (by omega)]
       have hd : n % 10 < 10 := Nat.mod_lt _ (by decide)
-      simp only [List.foldl_cons, List.foldl_nil, piStep, isDig_digitChar hd, digVal_digitChar hd, if_true]
-      have : wrapS64 (10 * ((n / 10 : Nat) : Int) + ((n % 10 : Nat) : Int)) = (n : Int) := by
-        unfold wrapS64; omega
-      rw [this]
-      have : ¬ ((n : Int) < ((n / 10 : Nat) : Int)) := by omega
-      simp [this]
+      rw [dec_ge n hn', List.foldl_append, ih (n / 10) (by omega) (by omega), List.foldl_cons, List.foldl_nil,
+        piStep_digit _ _ hd (by omega) (by omega)]
+      congr 1; omega
+
+theorem ne_minus_of_isDig {c : Char} (h : isDig c = true) : (c == '-') = false := by
+  cases hc : (c == '-') with
+  | false => rfl
+  | true =>
+    have : c = '-' := by simpa using hc
+    subst this
+    exact absurd h (by decide)
+
+theorem ne_plus_of_isDig {c : Char} (h : isDig c = true) : (c == '+') = false := by
+  cases hc : (c == '+') with
+  | false => rfl
+  | true =>
+    have : c = '+' := by simpa using hc
+    subst this
+    exact absurd h (by decide)
+
+theorem jpParseInt_dec (n : Nat) (h : n < 9223372036854775808) : jpParseInt (dec n) = some (n : Int) := by
+  obtain ⟨c, r, hcr, hc⟩ := dec_head n
+  have hf := foldl_piStep_dec n h
+  unfold jpParseInt
+  rw [hcr] at hf ⊢
+  simp only [List.isEmpty_cons, List.head?_cons, Bool.false_eq_true, if_false]
+  have : (some c == some '-') = false := by
+    simpa using ne_minus_of_isDig hc
+  simp only [this, Bool.false_eq_true, if_false, hf]
+
+theorem stripSign_dec (n : Nat) : stripSign (dec n) = (false, dec n) := by
+  obtain ⟨c, r, hcr, hc⟩ := dec_head n
+  unfold stripSign
+  rw [hcr]
+  have h1 : (some c == some '-') = false := by simpa using ne_minus_of_isDig hc
+  have h2 : (some c == some '+') = false := by simpa using ne_plus_of_isDig hc
+  simp only [List.head?_cons, h1, h2, Bool.false_eq_true, if_false]
+
+theorem takeDigits_append (l r : List Char) (hl : ∀ c ∈ l, isDig c = true) (hr : takeDigits r = ([], r)) :
+    takeDigits (l ++ r) = (l, r) := by
+  induction l with
+  | nil => simpa using hr
+  | cons c l ih =>
+    have hc := hl c List.mem_cons_self
+    have := ih (fun c h => hl c (List.mem_cons_of_mem _ h))
+    simp only [List.cons_append, takeDigits, hc, if_true, this]
+
+theorem takeDigits_nondigit (c : Char) (r : List Char) (h : isDig c = false) : takeDigits (c :: r) = ([], c :: r) := by
+  simp [takeDigits, h]
+
+/-- the exponent of the last mantissa bit is ≤ −10 for numerators below 2^44 over a denominator ≥ 2 -/
+theorem ulpExp_le (num den : Nat) (hn : num ≠ 0) (hn2 : num < 2 ^ 44) (hd : 2 ≤ den) :
+    ulpExp num den ≤ -10 := by
+  have h1 : Nat.log2 num < 44 := (Nat.log2_lt hn).2 hn2
+  have h2 : 1 ≤ Nat.log2 den := (Nat.le_log2 (by omega)).2 (by simpa using hd)
+  unfold ulpExp
+  simp only []
+  split <;> split <;> omega
+
+/-- arithmetic core: with more than 1000 units per integer step, ⌊(1000 s + f)·P / 1000⌋ and its
+successor both lie in [s·P, (s+1)·P) -/
+theorem frac_div (s f P : Nat) (hf : f < 1000) (hP : 1000 < P) :
+    let q0 := (1000 * s + f) * P / 1000
+    (q0 / P = s) ∧ ((q0 + 1) / P = s) := by
+  intro q0
+  have hq : q0 = (1000 * s + f) * P / 1000 := rfl
+  have e1 : (1000 * s + f) * P = 1000 * (s * P) + f * P := by
+    rw [Nat.add_mul, Nat.mul_assoc]
+  have hfP : f * P ≤ 999 * P := Nat.mul_le_mul_right P (by omega)
+  have lo : s * P ≤ q0 := by
+    rw [hq, e1]; omega
+  have hi : q0 + 1 < (s + 1) * P := by
+    have : (s + 1) * P = s * P + P := by rw [Nat.add_mul, Nat.one_mul]
+    rw [this, hq, e1]; omega
+  have hPpos : 0 < P := by omega
+  constructor
+  · apply Nat.div_eq_of_lt_le
+    · rw [Nat.mul_comm] at lo; simpa [Nat.mul_comm] using lo
+    · have : q0 < (s + 1) * P := by omega
+      simpa [Nat.mul_comm] using this
+  · apply Nat.div_eq_of_lt_le
+    · have : s * P ≤ q0 + 1 := by omega
+      simpa [Nat.mul_comm] using this
+    · simpa [Nat.mul_comm] using hi
+
+theorem truncMag_round_frac (s f : Nat) (hs : 1 ≤ s) (hs2 : s < 10000000000) (hf : f < 1000) :
+    F64.truncMag ⟨false, (roundPos (1000 * s + f) 1000).1, (roundPos (1000 * s + f) 1000).2⟩ = s := by
+  have hx : ulpExp (1000 * s + f) 1000 ≤ -10 :=
+    ulpExp_le _ _ (by omega) (by
+      have : (2:Nat) ^ 44 = 17592186044416 := by decide
+      omega) (by omega)
+  generalize hxe : ulpExp (1000 * s + f) 1000 = x at hx
+  have hneg : ¬ (x ≥ 0) := by omega
+  have hP : 1000 < 2 ^ (-x).toNat := by
+    have h10 : 10 ≤ (-x).toNat := by omega
+    have : 2 ^ 10 ≤ 2 ^ (-x).toNat := Nat.pow_le_pow_right (by decide) h10
+    have e : (2:Nat) ^ 10 = 1024 := by decide
+    omega
+  simp only [roundPos, hxe, F64.truncMag, roundAt, hneg, if_false]
+  generalize 2 ^ (-x).toNat = P at hP
+  have key := frac_div s f P hf hP
+  simp only [] at key
+  split
+  · exact key.2
+  · exact key.1
+
+theorem stripSign_digit_head (c : Char) (r : List Char) (hc : isDig c = true) : stripSign (c :: r) = (false, c :: r) := by
+  unfold stripSign
+  have h1 : (some c == some '-') = false := by simpa using ne_minus_of_isDig hc
+  have h2 : (some c == some '+') = false := by simpa using ne_plus_of_isDig hc
+  simp only [List.head?_cons, h1, h2, Bool.false_eq_true, if_false]
+
+/-- three fraction digits of a millisecond count f < 1000 -/
+def frac3 (f : Nat) : List Char := [Nat.digitChar (f / 100), Nat.digitChar (f / 10 % 10), Nat.digitChar (f % 10)]
+
+/-- the JSON number token `<s>.<fff>` -/
+def fracText (s f : Nat) : List Char := dec s ++ '.' :: frac3 f
+
+theorem frac3_digits (f : Nat) (hf : f < 1000) : ∀ c ∈ frac3 f, isDig c = true := by
+  intro c hc
+  simp only [frac3, List.mem_cons, List.mem_nil_iff, or_false] at hc
+  rcases hc with h | h | h <;> subst h <;> apply isDig_digitChar <;> omega
+
+theorem ofDigitChars_frac3 (f : Nat) (hf : f < 1000) (init : Nat) :
+    Nat.ofDigitChars 10 (frac3 f) init = 1000 * init + f := by
+  have a : f / 100 < 10 := by omega
+  have b : f / 10 % 10 < 10 := by omega
+  have c : f % 10 < 10 := by omega
+  simp only [frac3, Nat.ofDigitChars_cons_digitChar_of_lt_ten a, Nat.ofDigitChars_cons_digitChar_of_lt_ten b,
+    Nat.ofDigitChars_cons_digitChar_of_lt_ten c, Nat.ofDigitChars_nil]
+  omega
+
+theorem parseDec_fracText (s f : Nat) (hf : f < 1000) :
+    parseDec (fracText s f) = some (false, 1000 * s + f, 3, 0) := by
+  obtain ⟨c, r, hcr, hc⟩ := dec_head s
+  have hss : stripSign (fracText s f) = (false, fracText s f) := by
+    unfold fracText; rw [hcr]; exact stripSign_digit_head c _ hc
+  have htd : takeDigits (fracText s f) = (dec s, '.' :: frac3 f) :=
+    takeDigits_append _ _ (fun c h => isDig_of_mem_dec h) (takeDigits_nondigit '.' _ (by decide))
+  have htf : takeDigits (frac3 f) = (frac3 f, []) := by
+    have := takeDigits_append (frac3 f) [] (frac3_digits f hf) rfl
+    simpa using this
+  have hm : Nat.ofDigitChars 10 (dec s ++ frac3 f) 0 = 1000 * s + f := by
+    rw [Nat.ofDigitChars_append, ofDigitChars_dec, ofDigitChars_frac3 f hf]
+  have hne : (dec s ++ frac3 f).isEmpty = false := by
+    rw [hcr]; rfl
+  unfold parseDec
+  simp only [hss, htd, List.head?_cons, List.tail_cons, beq_self_eq_true, if_true, htf, hne, hm,
+    Bool.false_eq_true, if_false]
+  simp [frac3]
+
+theorem isMilli_iff (v : Int) : Gen.IsTimeInMilli v = true ↔ 99999999999 ≤ v := by
+  simp [Gen.IsTimeInMilli]
+
+theorem isNano_iff (v : Int) : Gen.IsTimeInNano v = true ↔ 1000000000000000000 ≤ v := by
+  simp [Gen.IsTimeInNano]
+
+theorem jpParseFloat_fracText (s f : Nat) (hs : 1 ≤ s) (hs2 : s < 10000000000) (hf : f < 1000) :
+    ∃ q x, jpParseFloat (fracText s f) = some ⟨false, q, x⟩ ∧ F64.truncMag ⟨false, q, x⟩ = s := by
+  refine ⟨(roundPos (1000 * s + f) 1000).1, (roundPos (1000 * s + f) 1000).2, ?_, truncMag_round_frac s f hs hs2 hf⟩
+  have hm0 : ¬ (1000 * s + f = 0) := by omega
+  have hlen1 : 0 < (Nat.toDigits 10 (1000 * s + f)).length := Nat.length_toDigits_pos
+  have hlen2 : (Nat.toDigits 10 (1000 * s + f)).length ≤ 13 :=
+    (Nat.length_toDigits_le_iff (by decide) (by decide)).2 (by
+      have : (10:Nat) ^ 13 = 10000000000000 := by decide
+      omega)
+  have hx : ulpExp (1000 * s + f) 1000 ≤ -10 :=
+    ulpExp_le _ _ (by omega) (by
+      have : (2:Nat) ^ 44 = 17592186044416 := by decide
+      omega) (by omega)
+  have hov : overflows (roundPos (1000 * s + f) 1000).1 (roundPos (1000 * s + f) 1000).2 = false := by
+    have : ¬ ((roundPos (1000 * s + f) 1000).2 ≥ 0) := by simp only [roundPos]; omega
+    simp only [overflows, this, if_false]
+  unfold jpParseFloat
+  rw [parseDec_fracText s f hf]
+  simp only [hm0, if_false]
+  have e1 : ¬ (((Nat.toDigits 10 (1000 * s + f)).length : Int) + ((0:Int) - ((3:Nat):Int)) > 310) := by omega
+  have e2 : ¬ (((Nat.toDigits 10 (1000 * s + f)).length : Int) + ((0:Int) - ((3:Nat):Int)) < -330) := by omega
+  have e3 : ¬ ((0:Int) - ((3:Nat):Int) ≥ 0) := by omega
+  have e4 : (10:Nat) ^ (-((0:Int) - ((3:Nat):Int))).toNat = 1000 := by decide
+  simp only [e1, e2, e3, e4, if_false, hov, Bool.false_eq_true]
+
+theorem foldl_piStep_bad (l : List Char) : l.foldl piStep .bad = .bad := by
+  induction l with
+  | nil => rfl
+  | cons c l ih => simpa [List.foldl_cons, piStep] using ih
+
+theorem jpParseInt_fracText (s f : Nat) (hs : s < 9223372036854775808) : jpParseInt (fracText s f) = none := by
+  obtain ⟨c, r, hcr, hc⟩ := dec_head s
+  have hfold : (fracText s f).foldl piStep (.run 0) = .bad := by
+    unfold fracText
+    rw [List.foldl_append, foldl_piStep_dec s hs, List.foldl_cons]
+    have : piStep (.run (s : Int)) '.' = .bad := by
+      simp only [piStep]
+      have : isDig '.' = false := by decide
+      simp only [this, Bool.false_eq_true, if_false]
+    rw [this, foldl_piStep_bad]
+  have hh : (fracText s f).head? = some c := by unfold fracText; rw [hcr]; rfl
+  have hne : (fracText s f).isEmpty = false := by unfold fracText; rw [hcr]; rfl
+  have hm : (some c == some '-') = false := by simpa using ne_minus_of_isDig hc
+  unfold jpParseInt
+  simp only [hne, Bool.false_eq_true, if_false, hh, hm, hfold]
+
+theorem extractNum_fracText (s f : Nat) (hs : 100000000 ≤ s) (hs2 : s < 10000000000) (hf : f < 1000) :
+    extractNum (fracText s f) = (s : Int) * 1000 := by
+  obtain ⟨q, x, hpf, htm⟩ := jpParseFloat_fracText s f (by omega) hs2 hf
+  have hpi : jpParseInt (fracText s f) = none := jpParseInt_fracText s f (by omega)
+  unfold extractNum
+  simp only [hpi, hpf]
+  have hu : f64ToU64 ⟨false, q, x⟩ = (s : Int) := by
+    simp only [f64ToU64, htm, Bool.false_eq_true, if_false]
+    have : ((s : Nat) : Int) < 18446744073709551616 := by omega
+    simp only [this, if_true]
+  have hmil : Gen.IsTimeInMilli (s : Int) = false := by
+    cases h : Gen.IsTimeInMilli (s : Int) with
+    | false => rfl
+    | true => have := (isMilli_iff _).1 h; omega
+  simp only [hu, hmil, Bool.not_false, if_true]
+  unfold wrapU64; omega
+
+theorem goParseUint_dec (n : Nat) (h : n < 18446744073709551616) : goParseUint (dec n) = some (n : Int) := by
+  obtain ⟨c, r, hcr, _⟩ := dec_head n
+  have hne : (dec n).isEmpty = false := by rw [hcr]; rfl
+  unfold goParseUint
+  simp only [hne, allDigits_dec, Bool.not_true, Bool.or_self, Bool.false_eq_true, if_false, ofDigitChars_dec, h, if_true]
+
+theorem goParseInt_dec (n : Nat) (h : n < 9223372036854775808) : goParseInt (dec n) = some (n : Int) := by
+  obtain ⟨c, r, hcr, hc⟩ := dec_head n
+  have hne : (dec n).isEmpty = false := by rw [hcr]; rfl
+  have hss : stripSign (dec n) = (false, dec n) := by rw [hcr]; exact stripSign_digit_head c r hc
+  unfold goParseInt
+  simp only [hss, hne, allDigits_dec, Bool.not_true, Bool.or_self, Bool.false_eq_true, if_false, ofDigitChars_dec, h, if_true]
+
+theorem isMilli_false {v : Int} (h : v < 99999999999) : Gen.IsTimeInMilli v = false := by
+  cases e : Gen.IsTimeInMilli v with
+  | false => rfl
+  | true => have := (isMilli_iff _).1 e; omega
+
+theorem isMilli_true {v : Int} (h : 99999999999 ≤ v) : Gen.IsTimeInMilli v = true := (isMilli_iff _).2 h
+
+theorem isNano_false {v : Int} (h : v < 1000000000000000000) : Gen.IsTimeInNano v = false := by
+  cases e : Gen.IsTimeInNano v with
+  | false => rfl
+  | true => have := (isNano_iff _).1 e; omega
+
+theorem isNano_true {v : Int} (h : 1000000000000000000 ≤ v) : Gen.IsTimeInNano v = true := (isNano_iff _).2 h
+
+/-- the jp.Number branch on an integer rendering below 2^63 -/
+theorem extractNum_dec (n : Nat) (h : n < 9223372036854775808) :
+    extractNum (dec n) = if Gen.IsTimeInMilli (n : Int) then (n : Int) else (n : Int) * 1000 % 18446744073709551616 := by
+  have hw : wrapU64 (n : Int) = (n : Int) := by unfold wrapU64; omega
+  unfold extractNum
+  simp only [jpParseInt_dec n h, hw]
+  cases Gen.IsTimeInMilli (n : Int) <;> simp [wrapU64]
+
+/-- the seconds → milliseconds scaling never turns a non-zero uint64 reading into 0 (the threshold
+keeps the product far below 2^64) -/
+theorem scale_eq_zero_iff (w : Int) (h0 : 0 ≤ w) (h1 : w < 18446744073709551616) :
+    (if (!Gen.IsTimeInMilli w) = true then wrapU64 (w * 1000) else w) = 0 ↔ w = 0 := by
+  cases hm : Gen.IsTimeInMilli w with
+  | true =>
+    have := (isMilli_iff w).1 hm
+    simp only [Bool.not_true, Bool.false_eq_true, if_false]
+  | false =>
+    have : w < 99999999999 := by
+      cases Decidable.em (w < 99999999999) with
+      | inl h => exact h
+      | inr h => have := isMilli_true (v := w) (by omega); rw [this] at hm; cases hm
+    simp only [Bool.not_false, if_true]
+    unfold wrapU64; omega
+
+theorem f64ToU64_range (f : F64) : 0 ≤ f64ToU64 f ∧ f64ToU64 f < 18446744073709551616 := by
+  unfold f64ToU64 f64ToS64 wrapU64
+  simp only []
+  split
+  · omega
+  · split <;> omega
+
+theorem goParseUint_range {s : List Char} {v : Int} (h : goParseUint s = some v) :
+    0 ≤ v ∧ v < 18446744073709551616 := by
+  unfold goParseUint at h
+  split at h
+  · cases h
+  · split at h
+    · cases h; omega
+    · cases h
+
+/-- ConvertTimestampToMillis on a ParseUint-able string: the result is 0 only for the value 0 -/
+theorem convert_uint_eq_zero_iff (v : Int) (h0 : 0 ≤ v) (h1 : v < 18446744073709551616) :
+    (if (!Gen.IsTimeInMilli (if Gen.IsTimeInNano v = true then wrapU64 (Int.tdiv v 1000000) else v)) = true
+      then wrapU64 ((if Gen.IsTimeInNano v = true then wrapU64 (Int.tdiv v 1000000) else v) * 1000)
+      else (if Gen.IsTimeInNano v = true then wrapU64 (Int.tdiv v 1000000) else v)) = 0 ↔ v = 0 := by
+  cases hn : Gen.IsTimeInNano v with
+  | true =>
+    have hn' := (isNano_iff v).1 hn
+    have hd : Int.tdiv v 1000000 = v / 1000000 := Int.tdiv_eq_ediv_of_nonneg (by omega)
+    have hw : wrapU64 (Int.tdiv v 1000000) = v / 1000000 := by rw [hd]; unfold wrapU64; omega
+    simp only [if_true, hw]
+    rw [scale_eq_zero_iff (v / 1000000) (by omega) (by omega)]
+    omega
+  | false =>
+    simp only [Bool.false_eq_true, if_false]
+    exact scale_eq_zero_iff v h0 h1
 
 end SigModel.Lemmas.C16
